@@ -775,6 +775,12 @@ func (p *Parser) advance() {
 	p.currentPos++
 	if p.currentPos < len(p.tokens) {
 		p.currentToken = p.tokens[p.currentPos]
+	} else if p.currentPos > len(p.tokens) {
+		// Moving on from the position just after the last token: the cursor reads as end of
+		// input. (For a token slice without a trailing EOF the last token used to stay current
+		// forever, so loops keyed on the current token - operator chains, constraint and
+		// modifier lists - never terminated and allocated without bound.)
+		p.currentToken = token.Token{Type: models.TokenTypeEOF}
 	}
 }
 
